@@ -143,4 +143,17 @@ def register(reg):
           "C17.concatenation-leaves-the-operands-alone": "heap_unchanged(%s, %s)" % (LINKS_ATTRS, KS),
       },
       raises={"C17.concatenation-leaves-the-operands-alone": "heap_unchanged(%s, %s)" % (LINKS_ATTRS, KS)})
-
+    # ---------------------------------------------------------------- the container fields' own validation (C06, C01, C13)
+    # the virtual contract of Field._validate is what _set_value and Field.validate rely on; these two overrides are held to it
+    # and to the frame that makes a rejected whole-list / whole-dict assignment harmless: nothing that existed before changes
+    KEEP = "heap_unchanged(%s, %s)" % (LINKS_ATTRS, KS)
+    reg.refine("fields.list_field:ListField._validate", "core:Field._validate",
+               defs={"accepts_type": (["f", "r"], "typeis(r, 'ref:list|ref:tuple')")}, returns="any", modifies=MOD,
+               ensures={
+                   "C06+C13.validating-a-list-changes-no-existing-object": KEEP,
+                   "C01.a-typed-list-becomes-a-proxy-of-this-configuration": "implies(truthy(self.field) and not typeis(self.field, 'ref:AnyField') and result is not value,"
+                                                                             " exact_class(result, 'ListProxy') and fresh(result) and result.cfg is cfg and result.list_field is self)",
+                   "C01.an-untyped-list-is-kept-as-it-is": "implies(not truthy(self.field) or typeis(self.field, 'ref:AnyField'), result is value)",
+               },
+               raises={"C06+C13.a-rejected-list-changes-no-existing-object": KEEP})
+    # DictField._validate / DictProxy.__init__: list(dict.items()) and dict(list of pairs) are outside the encoding; bounded (C06, C17 drivers)
